@@ -47,7 +47,7 @@ SIZES = {
     "stallmem": ((8, 1, 7, 100), (16, 4, 9, 100)),
     "latesigs": ((3, 1, 2, 100), (16, 2, 2, 100)),
     "dagodd": ((6, 1, 3, 700), (16, 3, 3, 900)),
-    "relag": ((8, 2, 6, 400), (16, 8, 8, 600)),   # long enough for anchors well above round 0 (the reset node's store then lacks the low rounds)
+    "relag": ((8, 2, 6, 400), (16, 4, 6, 400)),   # long enough for anchors well above round 0 (the reset node's store then lacks the low rounds)
     "longsilent": ((8, 1, 4, 100), (16, 4, 4, 100)),   # cache 200 on node 0 is calibrated for at most 4 validators (with more, the node falls below its supported cache window and stalls everybody when the live validators are exactly a supermajority)
 }
 
